@@ -130,6 +130,9 @@ def render_html(res):
 def render_css(res):
     out = ['body { color: black }']
     for dst, sp, tag in res.inlines:
+        if tag == 'import':
+            out.insert(0, '@import url("%s");' % sp)
+            continue
         out.append('.x%d { background: url("%s") }' % (len(out), sp))
     return '\n'.join(out).encode('utf-8')
 
@@ -233,6 +236,15 @@ def gen_site(tape, nhosts=1, npages=6, with_requisites=True, with_redirects=True
             if a.kind == 'css' and imgs and tape.chance(2, 3, 'site.css.url'):
                 dst = imgs[tape.draw(len(imgs), 'site.css.dst')]
                 a.inlines.append((dst, spell(tape, a, dst), 'url'))
+        # a chain of style sheets importing each other (embedded objects 2..5 levels below a page)
+        if tape.chance(1, 3, 'site.csschain'):
+            chain = [site.add(main, '/static/c%d.css' % i, 'css') for i in range(tape.between(2, 4, 'site.csschain.n'))]
+            for a, b in zip(chain, chain[1:]):
+                a.inlines.append((b, spell(tape, a, b), 'import'))
+            if imgs:
+                chain[-1].inlines.append((imgs[0], spell(tape, chain[-1], imgs[0]), 'url'))
+            assets.append(chain[0])
+            site.css_chain = chain
     redirects = []
     if with_redirects:
         for i in range(tape.between(0, 2, 'site.nredirects')):
